@@ -1,45 +1,16 @@
 import IstioModel.C16.IndexTheorems
 import IstioModel.C16.RuntimeTheorems
+import IstioModel.C16.IndexModel
 
 /-!
 C16 - index maintenance for ANY extractor (`extract : O → []string`, no, one or several index keys per
 object) and for an index created at ANY time on an already populated collection
 (`manyCollection.index()`: backfill from the current outputs, then `collectionIndex.update` with every
-delivered event): `late_index_correct`.
+delivered event): `late_index_correct`.  The functions themselves (`idxUpdateG`, `idxBackfill`, ...) live in
+IndexModel.lean (core only) and are executed by the driver of the stream `exact` (`lateindex` / `flookup`).
 -/
 namespace IstioModel.C16
 open AMap
-
-/-- `sets.DeleteCleanupLast(c.index, ik, k)` -/
-def idxDel1 (ix : AMap (List Key)) (ik : String) (k : Key) : AMap (List Key) :=
-  match lookup ix ik with
-  | none => ix
-  | some ks =>
-    if (ks.filter (fun x => x != k)).isEmpty then erase ix ik
-    else AMap.set ix ik (ks.filter (fun x => x != k))
-
-/-- `sets.InsertOrNew(c.index, ik, k)` -/
-def idxIns1 (ix : AMap (List Key)) (ik : String) (k : Key) : AMap (List Key) :=
-  match lookup ix ik with
-  | none => AMap.set ix ik [k]
-  | some ks => if ks.contains k then ix else AMap.set ix ik (k :: ks)
-
-/-- `collectionIndex.delete(o, k)`: for every extracted index key -/
-def idxDelG (ext : Val → List String) (ix : AMap (List Key)) (v : Val) (k : Key) : AMap (List Key) :=
-  (ext v).foldl (fun ix ik => idxDel1 ix ik k) ix
-
-def idxInsG (ext : Val → List String) (ix : AMap (List Key)) (v : Val) (k : Key) : AMap (List Key) :=
-  (ext v).foldl (fun ix ik => idxIns1 ix ik k) ix
-
-/-- `collectionIndex.update(ev, key)` -/
-def idxUpdateG (ext : Val → List String) (ix : AMap (List Key)) : Event → AMap (List Key)
-  | .add k v => idxInsG ext ix v k
-  | .update k o n => idxInsG ext (idxDelG ext ix o k) n k
-  | .delete k o => idxDelG ext ix o k
-
-/-- `manyCollection.index()`: a new index is filled from the current outputs -/
-def idxBackfill (ext : Val → List String) (m : FinMap) : AMap (List Key) :=
-  m.foldl (fun ix kv => idxInsG ext ix kv.2 kv.1) []
 
 /-- the index lists under `ik` exactly the objects one of whose extracted keys is `ik` -/
 def IdxInvG (ext : Val → List String) (m : FinMap) (ix : AMap (List Key)) : Prop :=
